@@ -110,6 +110,9 @@ func gopfmt(path string, class, smart, mvgo bool) (err error) {
 
 func writeFileWithBackup(path string, target []byte) (err error) {
 	dir, file := filepath.Split(path)
+	if dir == "" {
+		dir = "." // keep the temporary file next to path: Rename must not cross file systems
+	}
 	f, err := os.CreateTemp(dir, file)
 	if err != nil {
 		return
@@ -120,10 +123,15 @@ func writeFileWithBackup(path string, target []byte) (err error) {
 	if err != nil {
 		return
 	}
-	err = os.Remove(path)
+	// the temporary file is created with mode 0600: give it the permission bits of the file it replaces
+	fi, err := os.Stat(path)
+	if err == nil {
+		err = os.Chmod(tmpfile, fi.Mode().Perm())
+	}
 	if err != nil {
 		return
 	}
+	// Rename replaces path atomically; removing path first would lose the file if we stop in between
 	return os.Rename(tmpfile, path)
 }
 
